@@ -244,6 +244,7 @@ class UdpInverterProtocol(InverterProtocol, asyncio.DatagramProtocol):
         else:
             if self._timer:
                 logger.debug("Failed to receive response to %s in time (%ds).", self.command, self.timeout)
+                self._timer.cancel()
                 self._timer = None
             if self.response_future and not self.response_future.done():
                 self.response_future.cancel()
